@@ -11,8 +11,9 @@ meta = json.load(open(os.path.join(ROOT, "tools", "meta.json")))
 meta["checks"] = {f[:-5]: json.load(open(os.path.join(ROOT, "tools", "meta.d", f)))
                   for f in os.listdir(os.path.join(ROOT, "tools", "meta.d")) if f.endswith(".json")}
 
+ready = set(json.load(open(os.path.join(ROOT, "tools", "ready.json"))))
 built = [p["id"] for p in props
-         if p["id"] in obl and p["id"] in meta.get("checks", {})
+         if p["id"] in ready and p["id"] in obl and p["id"] in meta.get("checks", {})
          and os.path.exists(os.path.join(ROOT, "harness", p["id"].lower() + ".py"))]
 
 m = {
